@@ -38,6 +38,14 @@ SMALL = [
     "IF ztz% THEN\nELSE\nEND IF\nWHILE ztz%\nWEND\nPRINT 41001&\n",
     "INPUT zv%\nPRINT 41001&; zv%\n",
     "zs\nzs\nSUB zs\nSTATIC zn\nzn = zn + 1\nPRINT 41001&; zn\nEND SUB\n",
+    # machine state that survives between debugger commands: pending error code, handler mode, DATA cursor, RNG, cursor column
+    "ON ERROR GOTO zh\nzq% = 1 \\ ztz%\nPRINT 41001&; ERR\nEND\nzh: PRINT 41002&; ERR\nRESUME NEXT\n",
+    "ON ERROR RESUME NEXT\nzq% = 1 \\ ztz%\nPRINT 41001&; ERR\nzq% = 32767 + zq% + 1\nPRINT 41002&; ERR\n",
+    "ON ERROR GOTO zh\nzq% = 1 \\ ztz%\nPRINT 41001&\nEND\nzh: PRINT 41002&\nON ERROR GOTO 0\nPRINT 41003&\n",
+    "READ za%, zb%\nPRINT 41001&; za%\nRESTORE zd2\nREAD za%\nPRINT 41002&; za%; RND\nDATA 5, 6\nzd2: DATA 7\n",
+    "PRINT 41001&;\nLOCATE 2, 5\nPRINT 41002&,\nPRINT 41003&\nRANDOMIZE 3\nPRINT 41004&; RND\n",
+    "FOR zi% = 1 TO 4\nIF zi% MOD 2 = 0 THEN PRINT 41001&\nNEXT zi%\nzk% = 0\nDO\nzk% = zk% + 1\nIF zk% = 2 THEN PRINT 41002&\nLOOP WHILE zk% < 3\n",
+    "zs 1\nzs 2\nSUB zs (n%)\nIF n% = 2 THEN PRINT 41001&\nEND SUB\n",
 ]
 
 
@@ -217,6 +225,10 @@ def gen_cases(tier, seed):
             cs.append({'kind': 'exhaustive', 'base': {'src': 'text', 'text': t, 'seed': i}, 'O': O, 'L': L, 'k': i})
     for i, t in enumerate(SMALL):
         cs.append({'kind': 'bpcount', 'base': {'src': 'text', 'text': t, 'seed': i}, 'k': i})
+    # programs with error handlers / RESUME / ON ERROR RESUME NEXT (the C10 program family): transparency under random histories
+    for i in range(12 if tier == 'quick' else 200):
+        cs.append({'kind': 'random', 'errprog': seed * 7919 + i, 'base': None, 'k': i, 'nhist': 6 if tier == 'quick' else 15,
+                   'hseed': seed * 17 + i})
     for i, b in enumerate(gen_cases_corpus(n // 2, seed + 3, opts={'max_stmts': 6, 'max_depth': 2, 'tags': True, 'input': False},
                                            with_repo=False)):
         cs.append({'kind': 'bpcount', 'base': b, 'k': i})
@@ -248,15 +260,72 @@ def pc_trace(mod, script):
     return pcs, cpu.halted
 
 
+MID_ENTRY_OK = {('ForStmt', 'NextStmt'),          # loop back edge: NEXT jumps to the test inside the FOR statement
+                ('ElseIfStmt', 'IfBeginStmt'), ('ElseIfStmt', 'ElseIfStmt'), ('ElseStmt', 'IfBeginStmt'),
+                ('ElseStmt', 'ElseIfStmt')}     # clause records begin with the jump that closes the previous branch
+
+
+def entry_monitor(mod, pcs):
+    """Control must enter every statement record at its first instruction (otherwise a line breakpoint, which sits on that
+    instruction, would miss arrivals).  Allowed: returning into a caller (ret*), falling back into an enclosing record, and
+    the two structural back/side edges listed in MID_ENTRY_OK.  -> (transitions checked, list of (kind, from_kind, a, b, line))"""
+    di = mod.debug_info
+    recs = [r_ for r_ in di.stmts if r_.end_offset > r_.start_offset]
+    cache = {}
+
+    def inner(pc):
+        if pc not in cache:
+            best = None
+            for r_ in recs:
+                if r_.start_offset <= pc < r_.end_offset and (best is None or r_.end_offset - r_.start_offset
+                                                              < best.end_offset - best.start_offset):
+                    best = r_
+            cache[pc] = best
+        return cache[pc]
+    from qvm.instrs import op_code_to_instr
+    bad = []
+    n = 0
+    for a, b in zip(pcs, pcs[1:]):
+        ra, rb = inner(a), inner(b)
+        if rb is None or ra is rb:
+            continue
+        n += 1
+        if b == rb.start_offset:
+            continue
+        if ra is not None and rb.start_offset <= ra.start_offset and ra.end_offset <= rb.end_offset:
+            continue
+        ins = op_code_to_instr.get(mod.code[a])
+        if ins is not None and ins.op.startswith('ret'):
+            continue
+        kb = type(rb.node).__name__
+        ka = type(ra.node).__name__ if ra is not None else None
+        if (kb, ka) in MID_ENTRY_OK:
+            continue
+        bad.append((kb, ka, a, b, rb.source_start_line))
+    return n, bad
+
+
 def run_case(case):
     st = {'sessions': 0, 'commands': 0, 'step_progress_checked': 0, 'transparency_compared': 0,
           'breakpoint_stops_checked': 0, 'step_tag_checks': 0}
     viol = []
     shapes = []
-    text, script, meta = cases.source_of(case['base'])
+    if case.get('errprog') is not None:
+        from . import c10
+        r0 = random.Random(case['errprog'])
+        pl = c10.plan(r0)
+        if pl['place'] in ('sub', 'function'):
+            pl['steps'] = [s_ for s_ in pl['steps'] if s_['k'] != 'gosub']
+        text = c10.build(pl, random.Random(case['errprog'] + 1))[0]
+        script = {}
+        st['error_handler_programs'] = 1
+    else:
+        text, script, meta = cases.source_of(case['base'])
     lines = text.split('\n')
     tagline = {}
     for li, ltxt in enumerate(lines):
+        if case.get('errprog') is not None:
+            break               # tags are printed by helper SUBs there: the tag oracle does not apply
         for m_ in TAG_RE.finditer(ltxt):
             tagline[int(m_.group(1))] = li + 1
     nlines = len(lines)
@@ -321,6 +390,12 @@ def run_case(case):
                 continue
             pcs, _ = pc_trace(mod, script)
             di = mod.debug_info
+            n_ent, bad_ent = entry_monitor(mod, pcs)
+            st['statement_entries_checked'] = st.get('statement_entries_checked', 0) + n_ent
+            for kb, ka, a_, b_, ln_ in bad_ent[:1]:
+                viol.append(V(f'C12:statement-entered-past-its-first-instruction:{kb}<-{ka}', f'O{O}g: control goes from '
+                              f'{a_:#x} ({ka}) to {b_:#x}, inside the {kb} record of line {ln_} but not at its first instruction: '
+                              f'a breakpoint on line {ln_} misses this arrival', text=text, line=ln_))
             # where the debugger starts: first pc with a statement
             class F:
                 pass
